@@ -125,7 +125,7 @@ def declare(reg, eng):
                      ("C07", "implies(result != JobState.DONE, lookup(self.xp.failedJobs, job.identifier) is job)"),
                      ("C06", "implies(result == JobState.DONE, not haskey(self.xp.failedJobs, job.identifier) or "
                              "lookup(self.xp.failedJobs, job.identifier) is old(lookup(self.xp.failedJobs, job.identifier)))"),
-                     ("C16", "effect('symlink_to') and effect_arg('symlink_to', 0) == p_joinp(xp_jobspath(effect_result('experiment.current')), job_relpath(job)) "
+                     ("C16", "effect('symlink_to') and effect_arg('symlink_to', 0) == p_joinp(effect_result('experiment.current').workdir / 'jobs', job_relpath(job)) "
                              "and effect_arg('symlink_to', 1) == job_path(job)"),
                  ],
                  effect_guards={
